@@ -575,3 +575,129 @@ fn check_fault(out: &mut Sink, child_rep: &str, desc: &str, info: &StepInfo, _k:
         }
     }
 }
+
+
+/// `churn-child`: fill / empty cycles with fresh key clusters on a tiny hash table, reopening after
+/// every cycle; progress is appended to `<dir>.progress` so that the parent can tell where a hang occurred.
+pub fn churn_child(args: &[String]) -> i32 {
+    let dir = arg(args, "--dir").unwrap();
+    let buckets: u32 = arg(args, "--buckets").and_then(|s| s.parse().ok()).unwrap_or(128);
+    let cycles: usize = arg(args, "--cycles").and_then(|s| s.parse().ok()).unwrap_or(60);
+    let seed: u64 = arg(args, "--seed").and_then(|s| s.parse().ok()).unwrap_or(1);
+    let _ = std::fs::remove_dir_all(&dir);
+    let mut rng = Rng::new(seed);
+    let mut cfg = DbCfg::gen(&mut rng);
+    cfg.buckets = buckets;
+    cfg.workers = 2;
+    cfg.rollback = false;
+    let progress = format!("{dir}.progress");
+    let log = |s: String| {
+        use std::io::Write;
+        if let Ok(mut f) = std::fs::OpenOptions::new().create(true).append(true).open(&progress) {
+            let _ = writeln!(f, "{s}");
+        }
+    };
+    let mut db: Option<Nomt<Blake3Hasher>> = None;
+    for c in 0..cycles {
+        log(format!("cycle {c} open"));
+        if db.is_none() {
+            match Nomt::open(cfg.options(&dir)) {
+                Ok(d) => db = Some(d),
+                Err(e) => {
+                    log(format!("OPENFAIL {e:#}"));
+                    return 3;
+                }
+            }
+        }
+        let d = db.as_ref().unwrap();
+        // a fresh dense cluster: 24 keys under a random 12-bit prefix => a few pages below the root
+        let mut keys: Vec<Key> = Vec::new();
+        for _ in 0..3 {
+            let base = rng.bytes32();
+            let depth = [6usize, 12, 18][rng.below(3)];
+            for _ in 0..24 {
+                keys.push(with_prefix(&mut rng, &base, depth));
+            }
+        }
+        keys.sort();
+        keys.dedup();
+        log(format!("cycle {c} fill"));
+        let s = d.begin_session(SessionParams::default());
+        let fin = match s.finish(keys.iter().map(|k| (*k, KeyReadWrite::Write(Some(vec![1u8; 8])))).collect()) {
+            Ok(f) => f,
+            Err(e) => {
+                log(format!("FINISHERR {e:#}"));
+                return 4;
+            }
+        };
+        let root = fin.root().into_inner();
+        if let Err(e) = fin.commit(d) {
+            // bucket exhaustion is a legitimate, reported outcome on a tiny table
+            log(format!("COMMITERR cycle {c} {e:#} poisoned={}", d.is_poisoned()));
+            return 0;
+        }
+        let expect = ref_root(&keys.iter().map(|k| (*k, vhash(&[1u8; 8]))).collect::<Vec<_>>());
+        if root != expect {
+            log(format!("ROOTBAD cycle {c}"));
+        }
+        log(format!("cycle {c} empty"));
+        let s = d.begin_session(SessionParams::default());
+        let fin = s.finish(keys.iter().map(|k| (*k, KeyReadWrite::Write(None))).collect()).unwrap();
+        if let Err(e) = fin.commit(d) {
+            log(format!("COMMITERR cycle {c} {e:#}"));
+            return 0;
+        }
+        let occ = d.hash_table_utilization().occupied;
+        if occ != 0 || !d.root().is_empty() {
+            log(format!("NOTEMPTY cycle {c} occupied={occ}"));
+        }
+        log(format!("cycle {c} close"));
+        db = None;
+    }
+    log("DONE".into());
+    0
+}
+
+/// C10 / C14 / C19: no sequence of commits makes the store hang or fail to reopen — tombstone churn on
+/// tiny tables, under a watchdog.
+pub fn churn(args: &[String], out: &mut Sink) {
+    let seed: u64 = arg(args, "--seed").and_then(|s| s.parse().ok()).unwrap_or(1);
+    let cases: usize = arg(args, "--cases").and_then(|s| s.parse().ok()).unwrap_or(2);
+    let cycles: usize = arg(args, "--cycles").and_then(|s| s.parse().ok()).unwrap_or(60);
+    let exe = std::env::current_exe().unwrap();
+    let pid = std::process::id();
+    for case in 0..cases {
+        let buckets = [100u32, 128, 250, 64][case % 4];
+        let d = format!("/dev/shm/nomt-verif-db-{pid}-churn-{seed}-{case}");
+        let _ = std::fs::remove_file(format!("{d}.progress"));
+        let mut cmd = Command::new(&exe);
+        cmd.arg("churn-child").args(["--dir", &d, "--buckets", &buckets.to_string(), "--cycles", &cycles.to_string(), "--seed", &(seed * 100 + case as u64).to_string()]);
+        cmd.stdout(std::process::Stdio::null()).stderr(std::process::Stdio::null());
+        let rc = run_timeout(&mut cmd, 40);
+        let prog = std::fs::read_to_string(format!("{d}.progress")).unwrap_or_default();
+        let last = prog.lines().last().unwrap_or("").to_string();
+        let ncycles = prog.lines().filter(|l| l.ends_with("close")).count();
+        out.mark_case(format!("churn case {case} buckets={buckets}"));
+        out.add("churn_cycles_completed", ncycles as u64);
+        out.count("churn_runs");
+        out.nontrivial(&format!("churn {seed} {case}"));
+        out.nontrivial(&format!("churn-b {seed} {case} {ncycles}"));
+        match rc {
+            None => out.fail(format!("C10 HANG: store with a {buckets}-bucket table stops responding after {ncycles} fill/empty cycles (last step: {last})")),
+            Some(0) => {
+                for l in prog.lines() {
+                    if l.starts_with("ROOTBAD") || l.starts_with("NOTEMPTY") {
+                        out.fail(format!("C19 {l} (buckets={buckets})"));
+                    }
+                    if l.starts_with("COMMITERR") {
+                        out.count("churn_bucket_exhaustion_reported");
+                    }
+                }
+            }
+            Some(c) => out.fail(format!("C10 churn child failed (exit {c}) after {ncycles} cycles: {last} (buckets={buckets})")),
+        }
+        out.samples.push(format!("churn buckets={buckets}: {ncycles} cycles completed, last step: {last}"));
+        cleanup(&d);
+        let _ = std::fs::remove_file(format!("{d}.progress"));
+    }
+}
